@@ -18,6 +18,8 @@
 //!        uncle candidate: sibling of block <of> (same parent/number/body, timestamp + dt, proposals = props)
 //! nb <label> <parent> <salt> <txs> <props> <uncles>
 //!        next block on <parent> (block labels; 0 = genesis) committing <txs>, proposing <props>, embedding <uncles>
+//! restart
+//!        stop the chain service, drop the node, open the same directory again (ext rows / cells persist)
 //! ```
 //! ## model lines emitted while executing one `nb` (all ops of the `arith`/`chain` streams + 2 new)
 //! ```text
@@ -40,6 +42,19 @@
 //! rebuilt through `BlockBuilder` (roots recomputed).  Variants (cellbase ±1 shannon, wrong lock,
 //! output missing / present against the rule, single dao bit flips) are submitted BEFORE the
 //! model-valued block (a sibling of the tip is stored without contextual verification).
+//!
+//! `--replay FILE` executes the scenario lines of the file literally (model lines of a recorded case
+//! are regenerated; the choice of variants is seeded by the scenario lines, so a recorded case
+//! replays to the same blocks, the same op lines and the same answers).
+//!
+//! Oracles (independent of the model, u128 arithmetic on what the node stores): the model-valued
+//! block is accepted and becomes the tip; every variant is rejected; `txs_fees[i]` = inputs − outputs;
+//! cellbase capacity = primary + floor(g2*U/C of the target's parent) + committer shares of the target's
+//! fees + proposer shares ("earliest proposer in the window"; class `block1-proposer-share-unpaid` for
+//! the recorded block-1 exception only); the cellbase lock is the target's; C' = C + g + g2,
+//! AR' = AR + floor(AR*g2/C), S' = S + g2 − floor(g2*U/C), U' = U + added − freed against the stored parent
+//! header; U(tip) = sum of occupied capacity over the node's COLUMN_CELL
+//! (`u-not-occupied-capacity-of-live-set`; holds with equality from genesis on).
 use crate::common::*;
 use crate::node::*;
 use ckb_chain_spec::consensus::Consensus;
